@@ -69,6 +69,7 @@ any_value = st.recursive(
 # JSON-representable values (C11): None, bools, ints (also huge), finite floats, text (non-ASCII, control, astral), lists, dicts with string keys
 JSON_TEXT = st.text(alphabet=st.characters(blacklist_categories=("Cs",)), max_size=8)
 _json_leaf = st.one_of(
+    st.sampled_from([{"t": "list", "v": []}, {"t": "dict", "v": []}, {"t": "dict", "v": [["children", {"t": "list", "v": []}]]}, {"t": "dict", "v": [["children", {"t": "none"}], ["label", {"t": "str", "v": "File"}]]}]),
     st.just({"t": "none"}),
     st.booleans().map(lambda v: {"t": "bool", "v": v}),
     st.integers(-1000, 1000).map(lambda v: {"t": "int", "v": v}),
@@ -81,7 +82,7 @@ json_value = st.recursive(
     _json_leaf,
     lambda inner: st.one_of(
         st.lists(inner, max_size=3).map(lambda v: {"t": "list", "v": v}),
-        st.lists(st.tuples(JSON_TEXT, inner).map(list), max_size=3, unique_by=lambda kv: kv[0]).map(lambda v: {"t": "dict", "v": v}),
+        st.lists(st.tuples(st.one_of(JSON_TEXT, st.sampled_from(["children", "parent", "name"])), inner).map(list), max_size=3, unique_by=lambda kv: kv[0]).map(lambda v: {"t": "dict", "v": v}),
     ),
     max_leaves=6,
 )
